@@ -372,8 +372,8 @@ class RenderContext:
     ) -> Iterator[RenderContext]:
         """Just like `Context.extend`, but keeps track of ForLoop objects too."""
         self.raise_for_loop_limit(forloop.length)
-        self.loops.append(forloop)
         with self.extend(namespace) as context:
+            self.loops.append(forloop)
             try:
                 yield context
             finally:
